@@ -26,6 +26,8 @@ FUNCTIONS = [
     "reconciliation:rewire", "reconciliation:remap_uri_prefixes",
     "_get_prefix_map", "_get_reverse_prefix_map", "_get_prefix_synmap",
     "mapping_service/api:MappingServiceGraph._expand_pair_all", "mapping_service/api:MappingServiceGraph.triples",
+    "w3c:is_w3c_prefix", "w3c:_is_w3c_luid", "w3c:is_w3c_curie",
+    "Converter.__init__",
 ]
 SHORT = [q.rpartition(":")[2].rpartition(".")[2] for q in FUNCTIONS]
 MODULE = {s_: (q.partition(":")[0] if ":" in q else "api") for q, s_ in zip(FUNCTIONS, SHORT)}
@@ -38,9 +40,15 @@ ERR = {
     "NoCURIEDelimiterError": "ENoCURIEDelimiter", "ExpansionError": "EExpansion", "CompressionError": "ECompression",
     "PrefixStandardizationError": "EPrefixStd", "IdentifierStandardizationError": "EIdentifierStd",
     "CURIEStandardizationError": "ECURIEStd", "URIStandardizationError": "EURIStd",
-    "TransitiveError": "ETransitive",
+    "TransitiveError": "ETransitive", "DuplicateURIPrefixes": "EDuplicateURIPrefixes", "DuplicatePrefixes": "EDuplicatePrefixes",
     "KeyError": "EKeyError", "ValueError": "EValueError", "TypeError": "ETypeError", "IndexError": "EIndexError",
 }
+RE_NAMES = {"NCNAME_RE": 0, "LOCAL_UNIQUE_IDENTIFIER_RE": 1}
+RE_METHODS = {"fullmatch": 0, "match": 1}
+SATTR = {"delimiter": "SaDelimiter", "records": "SaRecords", "prefix_map": "SaPrefixMap", "synonym_to_prefix": "SaSynonymToPrefix",
+         "reverse_prefix_map": "SaReversePrefixMap", "trie": "SaTrie", "pattern_map": "SaPatternMap"}
+ORACLES = {"_get_duplicate_uri_prefixes": "f_oracle_dup_uri_prefixes", "_get_duplicate_prefixes": "f_oracle_dup_prefixes",
+           "_get_pattern_map": "f_oracle_pattern_map"}
 SDICT = {"prefix_map": "DPrefixMap", "synonym_to_prefix": "DSynonymToPrefix", "reverse_prefix_map": "DReversePrefixMap",
          "pattern_map": "DPatternMap"}
 ATTR = {"_all_prefixes": "AAllPrefixes", "_all_uri_prefixes": "AAllUriPrefixes", "prefix": "APrefix", "identifier": "AIdentifier", "uri_prefix": "AUriPrefix", "prefix_synonyms": "APrefixSynonyms",
@@ -186,6 +194,8 @@ class FnTranslator:
                     return "ESelfDelim"
                 if n.attr == "records":
                     return "ESelfRecords"
+                if n.attr in SDICT:
+                    return f"(ESelfDict {SDICT[n.attr]})"
                 raise Unsupported(f"self.{n.attr}")
             if n.attr in ATTR:
                 return f"(EAttr {self.exp(n.value)} {ATTR[n.attr]})"
@@ -316,6 +326,18 @@ class FnTranslator:
                         raise Unsupported(f"{f.id} called on another converter")
                     n = ast.Call(func=n.func, args=n.args[1:], keywords=n.keywords)
                 return f"(ECall f_{f.id} {self.call_args(f.id, n)})"
+            if f.id in ORACLES and len(n.args) == 1 and not n.keywords:
+                return f"(ECall {ORACLES[f.id]} {self.exps([self.exp(n.args[0])])})"
+            if f.id == "StringTrie" and len(n.args) == 1 and not n.keywords:
+                return f"(ETrieOf {self.exp(n.args[0])})"
+            if f.id == "sorted" and len(n.args) == 1 and len(n.keywords) == 1 and n.keywords[0].arg == "key":
+                k = n.keywords[0].value
+                if isinstance(k, ast.Lambda) and len(k.args.args) == 1 and isinstance(k.body, ast.Attribute) and isinstance(k.body.value, ast.Name) \
+                        and k.body.value.id == k.args.args[0].arg and k.body.attr == "prefix":
+                    return f"(ESortedByPrefix {self.exp(n.args[0])})"
+                raise Unsupported("sorted with another key")
+            if f.id == "bool" and len(n.args) == 1 and not n.keywords:
+                return f"(ENot (ENot {self.exp(n.args[0])}))"
             if f.id == "len" and len(n.args) == 1 and not n.keywords:
                 return f"(ELen {self.exp(n.args[0])})"
             if f.id == "sorted" and len(n.args) == 1 and not n.keywords:
@@ -353,6 +375,10 @@ class FnTranslator:
                     and isinstance(n.args[0], ast.Call) and isinstance(n.args[0].func, ast.Attribute) and n.args[0].func.attr == "values" \
                     and not n.args[0].args and isinstance(n.args[0].func.value, ast.Name) and n.args[0].func.value.id == recv.args[0].id:
                 return f"(EKeysInterValues {self.exp(recv.args[0])})"
+            if isinstance(recv, ast.Name) and recv.id in RE_NAMES and f.attr in RE_METHODS and len(n.args) == 1 and not n.keywords:
+                return f"(ECall (f_oracle_re {RE_NAMES[recv.id]} {RE_METHODS[f.attr]}) {self.exps([self.exp(n.args[0])])})"
+            if f.attr == "strip" and not n.args and not n.keywords:
+                return f"(ECall f_oracle_strip {self.exps([self.exp(recv)])})"
             if f.attr in ("startswith", "endswith") and len(n.args) == 1 and not n.keywords:
                 return f"({'EStartsWith' if f.attr == 'startswith' else 'EEndsWith'} {self.exp(recv)} {self.exp(n.args[0])})"
             if f.attr == "partition" and len(n.args) == 1 and not n.keywords:
@@ -414,6 +440,8 @@ class FnTranslator:
                         and not v.keywords and self.is_self(v.args[0]):
                     return "SPass"
                 raise Unsupported("the converter parameter is rebound")
+            if isinstance(t, ast.Attribute) and self.is_self(t.value) and t.attr in SATTR:
+                return f"(SSelfAttr {SATTR[t.attr]} {self.exp(s.value)})"
             if isinstance(t, ast.Attribute) and isinstance(t.value, ast.Name) and t.value.id in self.vars and t.attr in ATTR:
                 return f"(SRecSet {self.var(t.value.id)} {ATTR[t.attr]} {self.exp(s.value)})"
             if isinstance(t, ast.Name):
